@@ -19,6 +19,7 @@ REGISTRY = {
     "C04": ("auverif.props.c03", "run_c04"),
     "C12": ("auverif.props.c12", "run"),
     "C02": ("auverif.props.c02", "run"),
+    "C13": ("auverif.props.c13", "run"),
 }
 
 
